@@ -100,6 +100,8 @@ def check_wif(case):
             cls.append("nt:key-31-leading-zero-bytes")
         if data:
             cls.append("nt:suffix")
+        if len(data) >= 57:
+            cls.append("nt:suffix>=57-bytes")  # the WIF string is then longer than 128 characters
         ver = (0x80 if net == "mainnet" else 0xEF) + WIF_TYPES.index(typ)
         want = rb58.check_encode(bytes([ver]) + key + data)
         enc = attempt(bits.wif_encode, key, addr_type=typ, network=net, data=data)
@@ -254,7 +256,7 @@ def check_pem(case):
 def accept_cases(draw):
     kind = draw(st.sampled_from(["raw", "valid", "len", "otherlen", "x>=p", "nonresidue", "y-perturbed", "y-negated", "hybrid", "prefix", "coord-aliased"]))
     if kind == "raw":
-        return {"kind": kind, "b": draw(st.binary(max_size=70)).hex()}
+        return {"kind": kind, "b": draw(gen.sized_binary(70)).hex()}
     if kind == "coord-aliased":
         # a coordinate c + p (still 32 bytes) where (c, other) IS a curve point: only an explicit "< p" check rejects it
         c = draw(st.integers(0, 2**32 + 700))
@@ -327,7 +329,9 @@ def wif_cases(draw):
     mode = draw(st.sampled_from(["roundtrip", "roundtrip", "string", "string", "badkey"]))
     if mode == "roundtrip":
         return {"mode": mode, "key": draw(key32()).hex(), "net": draw(st.sampled_from(["mainnet", "testnet", "regtest"])),
-                "type": draw(st.sampled_from(WIF_TYPES)), "data": draw(st.one_of(st.just(b""), st.just(b"\x01"), st.binary(max_size=120))).hex()}
+                "type": draw(st.sampled_from(WIF_TYPES)), "data": draw(st.one_of(st.just(b""), st.just(b"\x01"), st.binary(max_size=120),
+                                                                  st.sampled_from([20, 33, 34, 56, 57, 58, 71, 105, 119, 120]).flatmap(lambda n: st.binary(min_size=n, max_size=n)),
+                                                                  st.integers(0, 120).flatmap(lambda n: st.binary(min_size=n, max_size=n)))).hex()}
     if mode == "string":
         key = draw(key32())
         kind = draw(st.sampled_from(["mutated", "mutated", "unknown-version", "valid"]))
@@ -373,7 +377,7 @@ def _targets(tier):
         Target("sec1-accept", check_accept, strategy=lambda tier: accept_cases(), budget={"quick": 4000, "thorough": 80000},
                required=["nt:len65-prefix02", "nt:len33-prefix04", "nt:hybrid", "nt:x>=p", "nt:nonresidue", "nt:y-negated", "nt:coord-aliased", "nt:after-decoding-valid-base", "expect-accept", "expect-reject"]),
         Target("wif", check_wif, strategy=lambda tier: wif_cases(), budget={"quick": 3000, "thorough": 60000},
-               required=["nt:key-31-leading-zero-bytes", "nt:suffix", "nt:wif-unknown-version", "nt:wif-mutated", "nt:bad-key-len", "nt:bad-key-range"]),
+               required=["nt:key-31-leading-zero-bytes", "nt:suffix", "nt:suffix>=57-bytes", "nt:wif-unknown-version", "nt:wif-mutated", "nt:bad-key-len", "nt:bad-key-range"]),
         Target("pem", check_pem, strategy=lambda tier: pem_cases(), budget={"quick": 320, "thorough": 6000},
                required=["nt:pem-priv", "nt:pem-openssl-priv", "nt:pem-openssl-pub", "nt:pem-openssl-priv-compressed", "nt:pem-openssl-pub-compressed", "nt:key-leading-zeros", "nt:pem-der-ends-in-whitespace-or-nul"] if HAVE_OPENSSL else ["nt:pem-priv", "nt:pem-der-ends-in-whitespace-or-nul"]),
         Target("pem-fixed", check_pem, enumerate_=enum_pem_corpus, shards=4),
